@@ -6,6 +6,8 @@ import (
 	"crypto/rand"
 	"fmt"
 
+	"github.com/veraison/psatoken"
+
 	"verif/harness/extprof"
 	"verif/harness/keys"
 	"verif/harness/model"
@@ -19,14 +21,57 @@ func init() { register("C02", runC02) }
 // c02Judge runs one (mutant token, key) pair through the library and the
 // oracle. orig is the untampered token the mutant derives from (nil for
 // hand-assembled envelopes, which have no legitimate verifying form).
+// c02Reuse is an Evidence object that is decoded into again and again (a
+// verifier that keeps one Evidence per connection): before a mutant is fed to
+// it, it has decoded and successfully verified the original token.
+type c02Reuse struct {
+	ev    *psatoken.Evidence
+	prime []byte
+	pk    crypto.PublicKey
+	n     int
+}
+
+var c02reuse *c02Reuse
+
 func c02Judge(c *mon.Ctx, class string, orig *signedTok, mutant []byte, pk crypto.PublicKey, pkIsSigners bool, extra map[string]any) {
+	c02JudgeVia(c, class, orig, mutant, pk, pkIsSigners, extra, "fresh-evidence")
+	if r := c02reuse; r != nil {
+		r.n++
+		if !(class == "bitflip" || class == "truncation") || r.n%16 == 0 {
+			// (re-)prime: decode + verify the untampered token on the reused object
+			if err := r.ev.UnmarshalCOSE(r.prime); err != nil || r.ev.Verify(r.pk) != nil {
+				c.Violation("C02/control-rejected/reused-evidence", "the reused Evidence does not decode+verify the unmodified token", nil)
+				return
+			}
+			c.Count("reused-evidence-primed")
+		}
+		c02JudgeVia(c, class, orig, mutant, pk, pkIsSigners, extra, "reused-evidence")
+	}
+}
+
+func c02JudgeVia(c *mon.Ctx, class string, orig *signedTok, mutant []byte, pk crypto.PublicKey, pkIsSigners bool, extra map[string]any, via string) {
 	c.Eval()
 	c.Count("mutants:" + class)
 	var decoded, verified bool
 	var derr, verr error
-	if pn, pv, fr := mon.Guard(func() { _, decoded, verified, derr, verr = libAccepts(mutant, pk) }); pn {
+	if pn, pv, fr := mon.Guard(func() {
+		if via == "fresh-evidence" {
+			_, decoded, verified, derr, verr = libAccepts(mutant, pk)
+			return
+		}
+		ev := c02reuse.ev
+		if derr = ev.UnmarshalCOSE(mutant); derr == nil {
+			decoded = true
+			verr = ev.Verify(pk)
+			verified = verr == nil
+		}
+	}); pn {
 		c.Violation("C02/panic/"+mon.PanicKey(fr), "panic while decoding / verifying a modified token", map[string]any{"panic": pv, "frame": fr, "class": class, "mutant_hex": mon.Hex(mutant)})
 		return
+	}
+	if via != "fresh-evidence" {
+		class = "reused:" + class
+		c.Count("reused-evidence-mutants")
 	}
 	switch {
 	case !decoded:
@@ -88,7 +133,7 @@ func c02Judge(c *mon.Ctx, class string, orig *signedTok, mutant []byte, pk crypt
 }
 
 func runC02(c *mon.Ctx) {
-	c.Rule("for each of ES256/384/512, EdDSA, PS256/384/512 with fresh keys x valid claims-sets of both profiles and a P2 extension, the token produced by the real ValidateAndSign is (1) accepted unmodified under the signer's key (positive control), then attacked with: every single-bit flip; every truncation; 1-8 trailing bytes; splices of protected/payload/signature between two tokens (same key/other payload, other key, other algorithm); signature := random bytes (same / other length), zeros, empty, signature of another message; 2-8 random byte substitutions, random insertions and deletions; algorithm moved to the unprotected header with a signature that is valid for that layout; empty protected header; protected header without label 1; nil payload with a signature valid over the empty payload; and verification under every other key (same algorithm, other curve/type, nil, non-key values). Oracle: decode+Verify may only succeed if the independent reader finds payload, protected-header content and signature byte-identical to the signed token and the key is the signer's (NO-VERDICT, counted), or if the independent stdlib verifier itself finds the signature valid for that content and key; Verify must never succeed without protected alg / payload / signature. distinct_nontrivial = distinct (algorithm, profile, mutation class, position bucket) signatures")
+	c.Rule("for each of ES256/384/512, EdDSA, PS256/384/512 with fresh keys x valid claims-sets of both profiles and a P2 extension, the token produced by the real ValidateAndSign is (1) accepted unmodified under the signer's key (positive control), then attacked - each mutant once through a fresh DecodeEvidenceFromCOSE and once through ONE REUSED Evidence object that has just decoded and verified the original token - with: every single-bit flip; every truncation; 1-8 trailing bytes; splices of protected/payload/signature between two tokens (same key/other payload, other key, other algorithm); signature := random bytes (same / other length), zeros, empty, signature of another message; 2-8 random byte substitutions, random insertions and deletions; algorithm moved to the unprotected header with a signature that is valid for that layout; empty protected header; protected header without label 1; nil payload with a signature valid over the empty payload; and verification under every other key (same algorithm, other curve/type, nil, non-key values). Oracle: decode+Verify may only succeed if the independent reader finds payload, protected-header content and signature byte-identical to the signed token and the key is the signer's (NO-VERDICT, counted), or if the independent stdlib verifier itself finds the signature valid for that content and key; Verify must never succeed without protected alg / payload / signature. distinct_nontrivial = distinct (algorithm, profile, mutation class, position bucket) signatures")
 	if err := extprof.Register(extprof.ExtP2Name); err != nil {
 		c.Violation("harness/register", err.Error(), nil)
 		return
@@ -133,6 +178,7 @@ func runC02(c *mon.Ctx) {
 			continue
 		}
 		c.Count("control-accepted:" + alg)
+		c02reuse = &c02Reuse{ev: &psatoken.Evidence{}, prime: A.tok, pk: k.Pub}
 		if job < 7 {
 			c.Sample("token:"+alg, map[string]any{"alg": alg, "profile": profName(vcA.a), "token_len": len(A.tok), "payload_len": len(A.env.Payload), "signature_len": len(A.env.Signature)})
 		}
@@ -301,4 +347,5 @@ func runC02(c *mon.Ctx) {
 	c.Floor("mutants:splice", 1000)
 	c.Floor("outcome:verify-rejected", 5000)
 	c.Floor("outcome:decode-rejected", 1000)
+	c.Floor("reused-evidence-mutants", 10000)
 }
